@@ -95,6 +95,19 @@ def fe_scenarios(ctx):
         s.wait(it)
         s.round(tags, {})
         out.append(s.done())
+    # events around the limit through the front end: an oversized event is cut at the limit and delivered, not refused
+    for i, size in enumerate([L, L + 1] if ctx.quick else [L - 1, L, L + 1, L + 4096, 7 * 1024 * 1024]):
+        s = Scn("c14-fe-ev%02d" % i, ext=[], timeout_ms=3000, frontEnd=True, opWaitMs=10000)
+        s.meta(family="sizes-frontend", event=size)
+        it = s.invoke(size=size, seed=rnd.randrange(1, 10 ** 6))
+        s.await_exec(kind="rt")
+        t = s.call("rt", "next", async_=True)
+        s.wait(t)
+        s.call("rt", "response", id="current", size=9, seed=rnd.randrange(1, 10 ** 6))
+        tags = {"rt": s.poll("rt")}
+        s.wait(it)
+        s.round(tags, {})
+        out.append(s.done())
     return out
 
 
